@@ -1403,9 +1403,12 @@ class Converter:
 
     def _translate_nested_function_def(self, fn: ast.FunctionDef) -> None:
         """Translate a nested function definition."""
+        # The declared return types are per function: keep those of the enclosing function.
+        outer_returntype = self.returntype
         self._enter_scope(fn.name, fn)
         self._translate_function_def_common(fn)
         function_ir = self._exit_scope()
+        self.returntype = outer_returntype
         outer_scope_vars = self.analyzer.outer_scope_variables(fn)
         function_ir.outer_scope_variables = [
             (var, self._lookup(var, self._source_of(fn))) for var in outer_scope_vars
